@@ -15,6 +15,41 @@ import npc_gen
 from c01 import replay, coq_stream
 
 PROP = 'C02'
+COQ_IMPORTS2 = ['Base.Prelude', 'Model.Charge', 'Model.Tensor', 'Model.TensorOps', 'Model.TensorCheck', 'Model.TakeSlice', 'Model.TensorProg',
+                'Model.TensorProgCheck']
+
+
+def coq_stream2(ctx, results, programs, max_cases, config, opt0):
+    """second correspondence stream: iswapaxes / gauge_total_charge / take_slice on one axis against Model/TensorProg.v, TakeSlice.v
+    (checker check_case_c02x of Model/TensorProgCheck.v: same legs, qtotal, _qdata rows in order, claim, dense form; WF of both)"""
+    cases, origin = [], []
+    for pi, res in enumerate(results):
+        for rec in res.get('coq2', []):
+            if len(cases) >= max_cases:
+                break
+            try:
+                lit = cc.coq_case2(rec)
+            except Exception as e:
+                ctx.fail('correspondence', 'cannot build Coq literal (coq2): %r' % (e,), None)
+                lit = None
+            if lit is not None:
+                cases.append('(%s : case2)' % lit)
+                origin.append((pi, 'take_slice' if rec['op'] == 'getitem' else rec['op']))
+    if not cases:
+        return 0, {}
+    bad, err = common.coq_failing_indices('cases_c02x', COQ_IMPORTS2, 'check_case_c02x', cases, shard=150)
+    if err:
+        ctx.fail('correspondence', 'model evaluation failed (coq2): ' + err[-800:], None)
+    per_op = {}
+    for _, opn in origin:
+        per_op[opn] = per_op.get(opn, 0) + 1
+    for b in bad[:5]:
+        pi, opn = origin[b]
+        ctx.fail('correspondence', 'Coq model (check_case_c02x) and implementation disagree on operation %s' % opn,
+                 {'stream': 'programs', 'program': programs[pi], 'config': config, 'optimize0': opt0, 'coq_case': cases[b][:3000]})
+    for _ in cases:
+        ctx.count('model-vs-impl', len(ctx._distinct), nontrivial=False)
+    return len(cases), per_op
 
 
 def main(ctx):
@@ -22,7 +57,7 @@ def main(ctx):
         ctx.proof = None
         return replay(ctx, PROP)
     rng = ctx.rng
-    ctx.proof = common.check_proofs(PROP, extra_targets=['Model/TensorCheck.vo'])
+    ctx.proof = common.check_proofs(PROP, extra_targets=['Model/TensorCheck.vo', 'Model/TensorProgCheck.vo'])
     nprog = ctx.pick(1400, 12000)
     nleg = ctx.pick(2500, 20000)
     if not ctx.proof.ok:
@@ -42,7 +77,9 @@ def main(ctx):
         if notes:
             ctx.notes.append('%s: observations outside C02 (not counted): %s' % (config, dict(sorted(notes.items())[:12])))
         n, per_op = coq_stream(ctx, PROP, results, programs, 'check_case_c02', ctx.pick(700, 4000))
-        coq_done[config] = {'cases': n, 'per_op': per_op}
+        n2, per_op2 = coq_stream2(ctx, results, programs, ctx.pick(400, 2500), config, opt0)
+        per_op.update(per_op2)
+        coq_done[config] = {'cases': n + n2, 'per_op': per_op}
     legprogs = [npc_gen.make_leg_program(rng) for _ in range(nleg)]
     results, infos, crashes = cc.run_programs('legs', legprogs, 'py', True)
     hist, notes = cc.collect(ctx, PROP, 'legs', legprogs, results, crashes, 'py', True, kind='legs', seen_keys=seen)
